@@ -82,7 +82,12 @@ class State:
             self._solver.set("timeout", FEAS_TIMEOUT_MS)
             self._solver_n = 0
         while self._solver_n < len(self.pc):
-            self._solver.add(self.pc[self._solver_n])
+            f = self.pc[self._solver_n]
+            # path feasibility is decided without the quantified facts: leaving hypotheses out can only keep a path that
+            # is in fact infeasible (its obligations are then proved under the full path condition, vacuously), never
+            # drop a feasible one -- and the quantifier-free checks are an order of magnitude faster
+            if not _has_quantifier(f):
+                self._solver.add(f)
             self._solver_n += 1
         return self._solver
 
@@ -176,6 +181,21 @@ class State:
         n._solver_n = 0
         n.solver_calls = 0
         return n
+
+
+def _has_quantifier(t) -> bool:
+    stack = [t]
+    seen = set()
+    while stack:
+        u = stack.pop()
+        if u.get_id() in seen:
+            continue
+        seen.add(u.get_id())
+        if z3.is_quantifier(u):
+            return True
+        if z3.is_app(u):
+            stack.extend(u.children())
+    return False
 
 
 def explore(run, max_paths: int = 4000, prefixes=None, split_at: int = 0, budget: int = 0):
